@@ -95,7 +95,22 @@ func vpH_C25_headChunks_bytes() {
 		prevEnd = crcAt + CRCSize
 	}
 	if err == nil {
-		// clean end: the rest of the file is the zero padding / end marker the writer leaves
+		// clean end: only at the end of the file, at an all-zero tail too short for a record header, or at the
+		// end marker the writer's preallocation leaves (series reference 0 with zero mint and maxt)
+		rest := len(file) - prevEnd
+		if rest >= MaxHeadChunkMetaSize {
+			zero := true
+			for _, b := range file[prevEnd : prevEnd+SeriesRefSize+2*MintMaxtSize] {
+				zero = vpAnd(zero, b == 0)
+			}
+			vpAssert(zero, "iteration ends silently only at the end marker (series 0, mint 0, maxt 0), never at a record")
+		} else {
+			zero := true
+			for _, b := range file[prevEnd:] {
+				zero = vpAnd(zero, b == 0)
+			}
+			vpAssert(zero, "a short tail is accepted only if it is all zeros")
+		}
 		vpReach("clean end")
 	} else {
 		vpReach("corruption reported")
